@@ -127,7 +127,7 @@ def wf(self):
 for _f in (chi2, w, proj, row, wf, wf_sym, wf_eig, wf_eig_all, wf_unit, wf_sorted, wf_search, wf_proj, wf_xsorted):
     _f.__pyvc_thm__ = True
 ENV = dict(chi2=chi2, w=w, proj=proj, row=row, wf=wf, wf_sym=wf_sym, wf_sorted=wf_sorted, wf_search=wf_search, wf_eig=wf_eig, wf_eig_all=wf_eig_all, wf_unit=wf_unit, wf_proj=wf_proj, wf_xsorted=wf_xsorted, is_pd=_npm.is_pd, is_psd=_npm.is_psd, psd_instance=_npm.psd_instance,
-           is_nan=_npm.is_nan)
+           is_nan=_npm.is_nan, is_array=_npm.is_array)
 
 
 def symmetric(S, m):
@@ -432,4 +432,158 @@ c_cdf = contract(M + "BMCI.cdf", prop=P, setup=_setup_cdf, pure=False, env=ENV, 
                           "cdf_nan(ssum(len(_locals['ws']), lambda k: _locals['ws'][k, 0]), result[0], result[1])",
                           "cdf_ends_at_one(0, result[0], result[1])",
                           "cdf_starts_nonneg(0, result[0], result[1])",
-                          "cdf_steps_up(0, result[0], result[1], self.ghost_k)"])
+                          "cdf_steps_up(0, result[0], result[1], self.ghost_k)"],
+                 canaries=["is_array(result[1])", "not is_array(result[1])", "len(result[0]) == 1"])
+
+
+# ------------------------------------------------------------------ predict_quantiles (one observation row, three quantiles)
+def _setup_q(ctx, cfg):
+    d = _setup_obs2d(ctx, cfg)
+    d["quantiles"] = _fa(ctx, "tau", (3,))
+    return d
+
+
+def quantiles_post(self, i_l, i_u, has, taus, q):
+    """q: the row of estimated quantiles"""
+    k = len(taus)
+    if_has = (forall(0, k, lambda t: forall(0, k, lambda u: implies(taus[t] <= taus[u], q[t] <= q[u])))       # non-decreasing in tau
+              and forall(0, k, lambda t: exists(i_l, i_u, lambda j: self.x[j] <= q[t])                        # within [min, max] of the
+                         and exists(i_l, i_u, lambda j: q[t] <= self.x[j])))                                  # window's x values
+    return implies(has, if_has) and implies(not has, forall(0, k, lambda t: is_nan(q[t])))
+
+
+quantiles_post.__pyvc_thm__ = True
+ENV["quantiles_post"] = quantiles_post
+c_q = contract(M + "BMCI.predict_quantiles", prop=P, setup=_setup_q, pure=False, env=ENV, configs=_CFG_MM,
+               result=lambda ctx, env: _fa(ctx, "qs", (1, 3)),
+               requires=["wf_search(self)", "wf_xsorted(self)"],
+               raises=[("exists(0, 3, lambda t: quantiles[t] < 0 or quantiles[t] > 1)", ValueError)],
+               ensures=["positive_weights(_locals['ws'])",
+                        "only_window(self, _locals['i_l'], _locals['i_u'], _locals['xs'], _locals['inds'])",
+                        "quantiles_post(self, _locals['i_l'], _locals['i_u'], "
+                        "has_weight(ssum(len(_locals['ws']), lambda k: _locals['ws'][k, 0]), _locals['xs']), quantiles, "
+                        "[result[0, t] for t in range(3)])"],
+               canaries=["is_nan(result[0, 0])", "result[0, 0] == result[0, 2]", "not is_nan(result[0, 1])"])
+
+
+# ------------------------------------------------------------------ bounded: the real code in floating point against direct sums
+@bounded(P, "float-oracle", "random databases (1..300 entries, 1..5 channels, duplicates, constant x), random SPD covariances (diagonal and "
+         "correlated, condition numbers up to 1e6), observations inside / at the edge / far outside, x2_max in {-1, 0, 0.1, 2, 50}, one random "
+         "permutation of each database; oracle: direct weighted sums in numpy.longdouble; 60 (quick) / 600 (thorough) databases")
+def bounded_float_oracle(rng, tier):
+    import warnings
+    rounds = 60 if tier == "quick" else 600
+    evals, failures, samples, distinct = 0, [], [], set()
+    LD = _np.longdouble
+
+    def direct(y, x, S, yo, keep=None):
+        Sinv = _np.linalg.inv(S).astype(LD)
+        d = (y.astype(LD) - yo.astype(LD))
+        chi = _np.einsum("ik,kl,il->i", d, Sinv, d)
+        wts = _np.exp(-chi / 2)
+        if keep is not None:
+            wts = wts * keep
+        c = wts.sum()
+        if not c > 0:
+            return chi, wts, None, None
+        mean = (wts * x).sum() / c
+        return chi, wts, mean, _np.sqrt((wts * (x - mean) ** 2).sum() / c)
+
+    def close(a, b, tol=1e-7):
+        return abs(float(a) - float(b)) <= tol * (1 + abs(float(b)))
+    for r in range(rounds):
+        n = rng.choice([1, 2, 3, 5, 17, 60, 300])
+        m = rng.randint(1, 5)
+        nprng = _np.random.RandomState(rng.randint(0, 2**31 - 1))
+        y = nprng.normal(size=(n, m)) * rng.choice([0.1, 1.0, 10.0])
+        if n > 3 and rng.random() < 0.3:
+            y[1] = y[0]                                         # duplicate entries
+        x = nprng.normal(size=n) if rng.random() < 0.85 else _np.full(n, 2.5)
+        if rng.random() < 0.4:
+            S = _np.diag(10.0 ** nprng.uniform(-3, 3, size=m))
+        else:
+            A = nprng.normal(size=(m, m))
+            S = A @ A.T + _np.eye(m) * 10.0 ** rng.uniform(-3, 0)
+        with warnings.catch_warnings():
+            warnings.simplefilter("ignore")
+            b = BMCI(y.copy(), x.copy(), S.copy())
+            perm = nprng.permutation(n)
+            b2 = BMCI(y[perm].copy(), x[perm].copy(), S.copy())
+            obs = [y[rng.randrange(n)].copy(), y.mean(axis=0) + nprng.normal(size=m) * 0.3, y[rng.randrange(n)] + 1e3]
+            for oi, yo in enumerate(obs):
+                for x2 in (-1.0, 0.0, 0.1, 2.0, 50.0):
+                    if x2 == 0.0 and oi == 0:
+                        continue            # exact ties at a zero-width window: the separate check float-x2max0-identical-entry
+                    evals += 1
+                    distinct.add((n, m, oi, x2))
+                    case = {"n": n, "m": m, "round": r, "obs": oi, "x2_max": x2}
+                    try:
+                        xs, sg = b.predict(yo.reshape(1, -1), x2)
+                        xs2, sg2 = b2.predict(yo.reshape(1, -1), x2)
+                        i_l, i_u, _ws = b.weights(yo, x2)
+                        cx, cF = b.cdf(yo, x2)
+                        q = b.predict_quantiles(yo.reshape(1, -1), [0.1, 0.5, 0.9], x2)[0]
+                    except Exception as exc:
+                        failures.append(dict(case, problem="exception %r" % (exc,)))
+                        continue
+                    keep = _np.zeros(n)
+                    keep[i_l:i_u] = 1
+                    chi, wts, mean_w, sd_w = direct(b.y, b.x, S, yo, keep)
+                    _, wall, mean_f, sd_f = direct(b.y, b.x, S, yo)
+                    w64 = _np.exp(-chi.astype(float) / 2) * keep           # the weights as float64 sees them (underflow to 0)
+                    if not w64.sum() > 0:
+                        mean_w = None                                       # 'no entry has non-zero weight': NaN expected
+                    elif w64.sum() < 1e-280:
+                        continue                                            # denormal range: no accuracy statement
+                    problems = []
+                    if x2 >= 0 and _np.any(chi[keep == 0] <= x2 * (1 - 1e-9) - 1e-12):       # (exact ties: see float-x2max0 below)
+                        problems.append("an entry with chi-square <= x2_max was left out")
+                    if mean_w is None:
+                        if not (_np.isnan(xs[0]) and _np.isnan(sg[0]) and _np.all(_np.isnan(q)) and not isinstance(cF, _np.ndarray)):
+                            problems.append("no entry with non-zero weight but the result is not NaN")
+                    else:
+                        if not (close(xs[0], mean_w) and close(sg[0], sd_w, 1e-5)):
+                            problems.append("mean/std differ from the direct weighted sums: %r %r vs %r %r" % (xs[0], sg[0], float(mean_w), float(sd_w)))
+                        if mean_f is not None and wall.sum() > 0:
+                            share = float(1 - wts.sum() / wall.sum())
+                            if abs(float(mean_w - mean_f)) > share * float(b.x.max() - b.x.min()) + 1e-9 * (1 + abs(float(mean_f))):
+                                problems.append("pruned estimate moved by more than the excluded weight share")
+                        if not (close(xs[0], xs2[0], 1e-6) and close(sg[0], sg2[0], 1e-5)):
+                            problems.append("result depends on the order of the database")
+                        if isinstance(cF, _np.ndarray) and cF.size:
+                            if _np.any(_np.diff(cF) < -1e-12) or not close(cF[-1], 1.0) or _np.any(_np.diff(cx) < 0) \
+                                    or sorted(cx) != sorted(b.x[i_l:i_u]):
+                                problems.append("cdf is not the non-decreasing cumulative weight over the window ending at 1")
+                        if _np.any(_np.diff(q) < -1e-12) or q.min() < b.x.min() - 1e-12 or q.max() > b.x.max() + 1e-12:
+                            problems.append("quantiles not monotone or outside [min x, max x]: %r" % (q,))
+                    if problems:
+                        failures.append(dict(case, problem="; ".join(problems)))
+                    elif len(samples) < 3:
+                        samples.append(dict(case, mean=float(xs[0]), window=[int(i_l), int(i_u)]))
+    return {"evaluations": evals, "distinct_nontrivial": len(distinct), "failures": failures[:5], "samples": samples}
+
+
+@bounded(P, "float-x2max0-identical-entry", "x2_max = 0 with an observation bit-identical to a database entry (chi-square exactly 0): the entry "
+         "must be kept; 40 random databases")
+def bounded_x2max0(rng, tier):
+    import warnings
+    evals, failures, samples, distinct = 0, [], [], set()
+    for r in range(40):
+        n, m = rng.choice([2, 5, 60, 300]), rng.randint(1, 5)
+        nprng = _np.random.RandomState(rng.randint(0, 2**31 - 1))
+        y, x = nprng.normal(size=(n, m)), nprng.normal(size=n)
+        A = nprng.normal(size=(m, m))
+        S = A @ A.T + _np.eye(m) * 0.1
+        with warnings.catch_warnings():
+            warnings.simplefilter("ignore")
+            b = BMCI(y.copy(), x.copy(), S)
+            j = rng.randrange(n)
+            i_l, i_u, _ws = b.weights(b.y[j].copy(), 0.0)
+        evals += 1
+        distinct.add((n, m, r))
+        if not (i_l <= j < i_u):
+            failures.append({"n": n, "m": m, "round": r, "entry": j, "window": [int(i_l), int(i_u)],
+                             "problem": "the entry identical to the observation (chi-square 0) is outside the window for x2_max=0"})
+        elif len(samples) < 3:
+            samples.append({"n": n, "m": m, "entry": j, "window": [int(i_l), int(i_u)]})
+    return {"evaluations": evals, "distinct_nontrivial": len(distinct), "failures": failures[:5], "samples": samples}
